@@ -13,7 +13,7 @@ CHECKS = {
  "C06": "Coq theorems (props/C06.v): for all pairs of DateTimes, <unit>_since equals the difference of the instants divided by the unit truncated toward zero (7 units), duration_between is the absolute difference; antisymmetry and inversion of add as corollaries. Tied to /repo by a differential run.",
  "C02": "Coq theorems (props/C02.v) for every integer day number: weekday anchored at Thursday 1970-01-01 and advancing by one mod 7; day of year = 1 + days since 1 January; format(w) equals the ISO-8601 week defined by the week's Thursday (complete in-kernel sweep of one 146097-day cycle, lifted to all days by a proved periodicity lemma); set_day_of_year lands on the n-th day of the same year or is refused. Tied to /repo by a differential run.",
  "C05": "Coq theorems (props/C05.v): for every day number and every count, add_/sub_months and add_/sub_years equal the month-index specification (same day of month, clamped to the target month's length, year -1 directly before year 1) when the target is in range and fail (API: panic) exactly otherwise; N years = 12N months. Tied to /repo by a differential run.",
- "C07": "Coq theorems (props/C07.v): for all pairs of (day, nanosecond) values, months_since is the unique n with b+n months <= a < b+(n+1) months when a >= b and b's day <= 28; years = months/12 truncated; antisymmetric and monotone for all pairs. Tied to /repo by a differential run.",
+ "C07": "Coq theorems (props/C07.v): for all pairs of (day, nanosecond) values, months_since is the unique n with b+n months <= a < b+(n+1) months when a >= b and b's day <= 28; years = months/12 truncated; both antisymmetric and monotone for all pairs. Tied to /repo by a differential run.",
  "C09": "Coq theorems (props/C09.v): for every DateTime/Time/Date, offset and candidate value, each of the 10 setters replaces exactly one local field (local day via the Date-level setter, local clock via the clock setter; everything else, read in local time, and the offset are stated unchanged) or passes an OutOfRange error through; the 9 clears leave the stated local fields and zero/minimise the rest. Tied to /repo by a differential run that re-reads all fields in local time.",
  "C10": "Coq theorems (props/C10.v): set_offset keeps days/nanoseconds (instant) and succeeds exactly when the local reading is representable; all getters read the instant shifted by the offset; as_offset moves the instant by minus the offset and makes the local reading equal the former UTC reading; Time analogues mod 24 h; Offset::from_seconds/from_hms accept exactly +-23:59:59 and resolve/resolve_hms return what was given. Tied to /repo by a differential run.",
  "C15": "Coq theorems (props/C15.v): from_ymd/from_ymdhms/from_hms/from_seconds/from_nanos/Offset constructors return Ok exactly on valid arguments (full u32/i32 domains) with the denoted value, otherwise an OutOfRange error whose range excludes the rejected value and contains every accepted value of that parameter; set_* never panic. Tied to /repo by a differential run comparing (name, min, max, value) of every error with the model.",
